@@ -152,7 +152,18 @@ def check_c15(tier, rep=None, only_complete=False):
     cvjobs = []
     for i, m in enumerate(meta):
         a = dict(m['paths']); a.update(cvgen.cli_cfg(CFG))
-        a.update(input_path=[os.path.join(m['d'], 'star.gvf')], output_path=os.path.join(m['d'], 'cv.fasta'),
+        # small variants on the transcripts: some before the donor breakpoint, some after the acceptor breakpoint, some elsewhere
+        rv = env.rng(f'c15-vars-{i}')
+        small = []
+        for tt in m['ref'].txs.values():
+            if rv.random() < 0.6:
+                small += cvgen.random_small_variants(rv, m['ref'], tt, rv.randrange(1, 4), kinds=('SNV', 'SNV', 'INS', 'DEL'),
+                                                     lo=0 if rv.random() < 0.3 else None)
+        m['small'] = small
+        inputs = [os.path.join(m['d'], 'star.gvf')]
+        if small:
+            sg = os.path.join(m['d'], 'small.gvf'); cvgen.write_gvf(sg, small); inputs.append(sg)
+        a.update(input_path=inputs, output_path=os.path.join(m['d'], 'cv.fasta'),
                  max_variants_per_node=[-1], additional_variants_per_misc=[-1])
         cvjobs.append(dict(cmd='callVariant', args=a))
     cvres = jobs.run_jobs('run_cv_batch.py', [dict(jobs=cvjobs[k::nj]) for k in range(nj)], timeout=3000)
@@ -162,9 +173,10 @@ def check_c15(tier, rep=None, only_complete=False):
             for j, x in enumerate(rr['results']):
                 cvflat[k + j * nj] = x
     cases_out, info = [], []
+    n_varlab = 0
     for i, m in enumerate(meta):
         chrom = m['ref'].chroms['chr1']
-        ctx0 = dict(gtf=m['ref'].gtf_lines(), chroms=m['ref'].chroms, thresholds=m['th'])
+        ctx0 = dict(gtf=m['ref'].gtf_lines(), chroms=m['ref'].chroms, thresholds=m['th'], small=[(v['tx'], v['id'], v['start']) for v in m['small']])
         peps_by_fusion = {}
         cv = cvflat[i]
         star_has_records = os.path.exists(os.path.join(m['d'], 'star.gvf'))
@@ -173,6 +185,7 @@ def check_c15(tier, rep=None, only_complete=False):
                 for e in h.split(' '):
                     if e.startswith('FUSION-'):
                         peps_by_fusion.setdefault(e.split('|')[0], set()).add(s)
+                        n_varlab += len(e.split('|')) > 2
         elif cv is not None and star_has_records:
             rep.violation(f"cv-crash:{env.canon_hash(ctx0)}", f"callVariant raised on parseSTARFusion output: {cv['error']}", ctx0)
         for ti, tool in enumerate(TOOLS):
@@ -216,6 +229,8 @@ def check_c15(tier, rep=None, only_complete=False):
                                       records=[dict(d=dids.index(q['dtx']) + 1, a=aids.index(q['atx']) + 1, pos=q['pos'], accpos=q['accpos'])
                                                for q in mine if q['dtx'] in dids and q['atx'] in aids],
                                       peps=peps, dinfo=dinfo, cfg=cvgen.spec_cfg(CFG),
+                                      dvars=[[cvgen.var_record(v) for v in m['small'] if v['tx'] == t['id']] for t in c['dts']],
+                                      avars=[[cvgen.var_record(v) for v in m['small'] if v['tx'] == t['id']] for t in c['ats']],
                                       cvran=bool(tool == 'star' and cv is not None and cv['ok']),
                                       allobs=[list(sq) for _, sq in cv['fasta']] if (tool == 'star' and cv is not None and cv['ok']) else [],
                                       proteome=cvgen.proteome_record(m['ref'])))
@@ -242,7 +257,7 @@ def check_c15(tier, rep=None, only_complete=False):
         if bad:
             rep.violation(f"fusion:{tool}:{key0}:{env.canon_hash(ctx['row'])}:{','.join(bad)}",
                           f"{tool} fusion row {ctx['row']} violates {bad}", ctx)
-    rep.part('fusion', peptides_checked=sum(x[4] for x in info), rows=len(info))
+    rep.part('fusion', peptides_checked=sum(x[4] for x in info), rows=len(info), fusion_labels_with_small_variants=n_varlab)
     if only_complete:
         return None
     if info:
